@@ -1,3 +1,234 @@
 import ArrowModel.Generated.C17
-namespace ArrowModel.C17.Text
-end ArrowModel.C17.Text
+/-
+C17 — algorithm models of the text formats.
+
+CSV: arrow-csv delegates quoting to the `csv` crate (`csv::Writer::write_byte_record` →
+`csv_core::Writer::{should_quote, needs_quotes}`, `csv_core::quote`) and splitting to
+`csv_core::Reader` (driven by `arrow-csv/src/reader/records.rs::RecordDecoder::decode`).
+The model mirrors those with arrow-csv's default configuration: `QuoteStyle::Necessary`,
+`double_quote = true`, writer terminator `\n`; reader terminator `CRLF` (any of `\r`, `\n`,
+`\r\n`), quoting on, no escape byte, no comment byte.
+
+JSON strings: arrow-json writes strings with `serde_json::Serializer::serialize_str`
+(`encode_string` in `arrow-json/src/writer/encoder.rs`) and reads them with the
+`String` / `Escape` / `Unicode` states of `TapeDecoder::decode`
+(`arrow-json/src/reader/tape.rs`).  Strings are byte lists (UTF-8).
+-/
+namespace ArrowModel.C17.Csv
+
+/-- `requires_quotes[b]` as built by `csv_core::WriterBuilder::build` for delimiter `d`, quote
+`q`, `double_quote = true`, terminator `Any(b'\n')`: delimiter, quote, CR and LF -/
+def requiresQuotes (d q b : Nat) : Bool := b == d || b == q || b == 13 || b == 10
+
+/-- `csv_core::Writer::needs_quotes` (the 8-way unrolled loop plus tail is `any`) -/
+def needsQuotes (d q : Nat) (field : List Nat) : Bool := field.any (requiresQuotes d q)
+
+/-- `csv_core::quote` with `double_quote = true`: copy up to each quote, write it twice -/
+def quoteBody (q : Nat) : List Nat → List Nat
+  | [] => []
+  | b :: bs => if b = q then q :: q :: quoteBody q bs else b :: quoteBody q bs
+
+/-- one field as `write_byte_record` emits it -/
+def writeField (d q : Nat) (f : List Nat) : List Nat :=
+  if needsQuotes d q f then q :: (quoteBody q f ++ [q]) else f
+
+/-- fields joined by the delimiter -/
+def writeFields (d q : Nat) : List (List Nat) → List Nat
+  | [] => []
+  | [f] => writeField d q f
+  | f :: fs => writeField d q f ++ d :: writeFields d q fs
+
+/-- `csv::Writer::write_byte_record` + `write_terminator`: when nothing at all was written for
+the record (`record_bytes == 0`: a single empty field) the core writer emits `""` so that the
+line is not empty; terminator `\n` -/
+def writeRecord (d q : Nat) (fields : List (List Nat)) : List Nat :=
+  let body := writeFields d q fields
+  (if body = [] then [q, q] else body) ++ [10]
+
+def writeRecords (d q : Nat) (recs : List (List (List Nat))) : List Nat :=
+  recs.flatMap (writeRecord d q)
+
+/-- the NFA states of `csv_core::Reader` that consume input (the epsilon states
+`EndFieldDelim`, `EndFieldTerm`, `InRecordTerm`, `EndRecord` are folded into the transitions) -/
+inductive St where
+  | startRecord | startField | inField | inQuoted | inDoubleEscapedQuote | crlf
+  deriving DecidableEq, Repr
+
+structure P where
+  st : St
+  cur : List Nat
+  fields : List (List Nat)
+  recs : List (List (List Nat))
+
+/-- `Terminator::CRLF.equals(c)` -/
+def isTerm (c : Nat) : Bool := c == 13 || c == 10
+
+/-- end of field at a delimiter: `EndFieldDelim → StartField` -/
+def endField (p : P) : P := { p with st := .startField, cur := [], fields := p.fields ++ [p.cur] }
+
+/-- end of field at a terminator byte `c`: `EndFieldTerm → InRecordTerm → (CRLF | EndRecord → StartRecord)` -/
+def endRecord (p : P) (c : Nat) : P :=
+  { st := if c = 13 then .crlf else .startRecord, cur := [], fields := [],
+    recs := p.recs ++ [p.fields ++ [p.cur]] }
+
+/-- `transition_nfa` from `StartField` -/
+def stepStartField (d q : Nat) (p : P) (c : Nat) : P :=
+  if c = q then { p with st := .inQuoted }
+  else if c = d then endField p
+  else if isTerm c then endRecord p c
+  else { p with st := .inField, cur := p.cur ++ [c] }
+
+/-- `transition_nfa` from `StartRecord`: terminator bytes are skipped (empty lines) -/
+def stepStartRecord (d q : Nat) (p : P) (c : Nat) : P :=
+  if isTerm c then { p with st := .startRecord } else stepStartField d q { p with st := .startField } c
+
+/-- `transition_nfa(state, c)` with the output actions applied -/
+def step (d q : Nat) (p : P) (c : Nat) : P :=
+  match p.st with
+  | .startRecord => stepStartRecord d q p c
+  | .crlf => if c = 10 then { p with st := .startRecord } else stepStartRecord d q p c
+  | .startField => stepStartField d q p c
+  | .inField =>
+    if c = d then endField p
+    else if isTerm c then endRecord p c
+    else { p with cur := p.cur ++ [c] }
+  | .inQuoted =>
+    if c = q then { p with st := .inDoubleEscapedQuote } else { p with cur := p.cur ++ [c] }
+  | .inDoubleEscapedQuote =>
+    if c = q then { p with st := .inQuoted, cur := p.cur ++ [c] }
+    else if c = d then endField p
+    else if isTerm c then endRecord p c
+    else { p with st := .inField, cur := p.cur ++ [c] }
+
+/-- `transition_final_nfa`: a record in progress is completed at end of input -/
+def finish (p : P) : List (List (List Nat)) :=
+  match p.st with
+  | .startRecord | .crlf => p.recs
+  | _ => p.recs ++ [p.fields ++ [p.cur]]
+
+def run (d q : Nat) (p : P) (input : List Nat) : P := input.foldl (step d q) p
+
+/-- all records of the input (`RecordDecoder::decode` until EOF, then `flush`) -/
+def readRecords (d q : Nat) (input : List Nat) : List (List (List Nat)) :=
+  finish (run d q { st := .startRecord, cur := [], fields := [], recs := [] } input)
+
+end ArrowModel.C17.Csv
+
+namespace ArrowModel.C17.Json
+open ArrowModel.Generated.C17
+
+/-- `HEX_DIGITS[n]` of serde_json's `write_char_escape` (`0123456789abcdef`) -/
+def hexDigit (n : Nat) : Nat := if n < 10 then 48 + n else 87 + n
+
+/-- serde_json `ESCAPE` table + `write_char_escape` for one byte -/
+def escapeByte (b : Nat) : List Nat :=
+  if b = 0x22 then [0x5C, 0x22]            -- \"
+  else if b = 0x5C then [0x5C, 0x5C]       -- \\
+  else if b = 0x08 then [0x5C, 0x62]       -- \b
+  else if b = 0x0C then [0x5C, 0x66]       -- \f
+  else if b = 0x0A then [0x5C, 0x6E]       -- \n
+  else if b = 0x0D then [0x5C, 0x72]       -- \r
+  else if b = 0x09 then [0x5C, 0x74]       -- \t
+  else if b < 0x20 then [0x5C, 0x75, 0x30, 0x30, hexDigit (b / 16), hexDigit (b % 16)]  -- \u00XX
+  else [b]
+
+/-- `format_escaped_str_contents` -/
+def escapeBody (s : List Nat) : List Nat := s.flatMap escapeByte
+
+/-- `encode_string(s, out)`: the quoted, escaped string -/
+def encodeString (s : List Nat) : List Nat := 0x22 :: (escapeBody s ++ [0x22])
+
+/-- `parse_hex`: `char::to_digit(16)` -/
+def parseHexDigit (b : Nat) : Option Nat :=
+  if 48 ≤ b ∧ b ≤ 57 then some (b - 48)
+  else if 97 ≤ b ∧ b ≤ 102 then some (b - 87)
+  else if 65 ≤ b ∧ b ≤ 70 then some (b - 55)
+  else none
+
+/-- four hex digits folded as `*high = (*high << 4) | digit` on a `u16` -/
+def parseHex4 (bs : List Nat) : Option (Nat × List Nat) :=
+  match bs with
+  | a :: b :: c :: e :: rest =>
+    match parseHexDigit a, parseHexDigit b, parseHexDigit c, parseHexDigit e with
+    | some x, some y, some z, some w =>
+      some ((((((x <<< J_HEX_SHIFT ||| y) % 65536) <<< J_HEX_SHIFT ||| z) % 65536) <<< J_HEX_SHIFT ||| w) % 65536, rest)
+    | _, _, _, _ => none
+  | _ => none
+
+/-- `char::from_u32(c).is_some()` -/
+def isScalar (c : Nat) : Bool := c < 0xD800 || (0xE000 ≤ c && c < 0x110000)
+
+/-- `write_char`: UTF-8 encoding of a scalar value (`char::encode_utf8`) -/
+def utf8 (c : Nat) : List Nat :=
+  if c < 0x80 then [c]
+  else if c < 0x800 then [0xC0 + c / 64, 0x80 + c % 64]
+  else if c < 0x10000 then [0xE0 + c / 4096, 0x80 + c / 64 % 64, 0x80 + c % 64]
+  else [0xF0 + c / 262144, 0x80 + c / 4096 % 64, 0x80 + c / 64 % 64, 0x80 + c % 64]
+
+/-- `char_from_surrogate_pair(low, high)`, including the expression exactly as written:
+`(((high - 0xD800) as u32) << 10) | ((low - 0xDC00) as u32 + 0x1_0000)` -/
+def charFromSurrogatePair (low high : Nat) : Option Nat :=
+  if J_LOW_MIN ≤ low ∧ low ≤ J_LOW_MAX ∧ J_HIGH_MIN ≤ high ∧ high ≤ J_HIGH_MAX then
+    let n := ((high - J_PAIR_HIGH_SUB) <<< J_PAIR_SHIFT) ||| ((low - J_PAIR_LOW_SUB) + J_PAIR_BASE)
+    if isScalar n then some n else none
+  else none
+
+/-- the `Escape` and `Unicode` states: input just after a backslash → decoded bytes, rest -/
+def unescapeOne (bs : List Nat) : Option (List Nat × List Nat) :=
+  match bs with
+  | [] => none
+  | c :: rest =>
+    if c = 0x75 then                                  -- 'u'
+      match parseHex4 rest with
+      | none => none
+      | some (high, rest1) =>
+        if isScalar high then some (utf8 high, rest1)
+        else
+          match rest1 with
+          | 0x5C :: 0x75 :: rest2 =>
+            match parseHex4 rest2 with
+            | none => none
+            | some (low, rest3) => (charFromSurrogatePair low high).map (fun n => (utf8 n, rest3))
+          | _ => none
+    else if c = 0x22 then some ([0x22], rest)
+    else if c = 0x5C then some ([0x5C], rest)
+    else if c = 0x2F then some ([0x2F], rest)
+    else if c = 0x62 then some ([J_ESC_B], rest)
+    else if c = 0x66 then some ([J_ESC_F], rest)
+    else if c = 0x6E then some ([0x0A], rest)
+    else if c = 0x72 then some ([0x0D], rest)
+    else if c = 0x74 then some ([0x09], rest)
+    else none
+
+/-- the `String` state: input just after the opening quote → string bytes and the input after
+the closing quote.  Fuel = input length (every iteration consumes a byte). -/
+def unescapeFuel : Nat → List Nat → List Nat → Option (List Nat × List Nat)
+  | 0, _, _ => none
+  | _ + 1, [], _ => none
+  | fuel + 1, c :: rest, acc =>
+    if c = 0x22 then some (acc, rest)
+    else if c = 0x5C then
+      match unescapeOne rest with
+      | none => none
+      | some (out, rest') => if rest'.length < rest.length + 1 then unescapeFuel fuel rest' (acc ++ out) else none
+    else unescapeFuel fuel rest (acc ++ [c])
+
+/-- a whole JSON string token (with both quotes) at the head of the input -/
+def decodeString (bs : List Nat) : Option (List Nat × List Nat) :=
+  match bs with
+  | 0x22 :: rest => unescapeFuel (rest.length + 1) rest []
+  | _ => none
+
+/-- RFC 8259 `\uXXXX` form of a scalar value: one escape in the BMP, a surrogate pair above
+(used to state that the reader decodes *every* escaped spelling, not only the ones the
+writer produces) -/
+def hex4 (n : Nat) : List Nat :=
+  [hexDigit (n / 4096 % 16), hexDigit (n / 256 % 16), hexDigit (n / 16 % 16), hexDigit (n % 16)]
+
+def escapeU (c : Nat) : List Nat :=
+  if c < 0x10000 then 0x5C :: 0x75 :: hex4 c
+  else
+    let v := c - 0x10000
+    (0x5C :: 0x75 :: hex4 (0xD800 + v / 1024)) ++ (0x5C :: 0x75 :: hex4 (0xDC00 + v % 1024))
+
+end ArrowModel.C17.Json
